@@ -51,8 +51,9 @@ def build_run(tag, prog, tags=None, want_go=False):
     if o["cerr"]:
         return o
     exe = os.path.join(d, "p_llgo.bin")
-    rc, so, se = core.llgo_build(w, llgo, d, exe, tags=tags, extra_env={"GOMAXPROCS": "1"})
+    rc, so, se = core.llgo_build(w, llgo, d, exe, tags=tags, extra_env={"GOMAXPROCS": "1"}, timeout=2400)
     o["rc"], o["log"] = rc, so + se
+    o["build_timeout"] = rc == -999      # watchdog, not a verdict
     if rc == 0:
         o["res"] = core.run_prog([exe], timeout=120, interposer=True)
     if os.path.exists(os.path.join(d, "cref.bin")):
@@ -119,10 +120,10 @@ def failing_units(prog, o):
 
 
 # =============================================================== 1. probes of recorded findings (always first)
-probe_jobs = [("probe-" + n, gen.probe_program(n), fid) for n, fid in (("regsplit", F_REGSPLIT), ("nestedpad", F_NESTED), ("capture", F_CAPT))]
+PROBE_OF = {"regsplit": F_REGSPLIT, "nestedpad": F_NESTED, "capture": F_CAPT, "gobytes_alias": F_GOBYTES, "cbytes_empty": F_CBYTES0}
 cgo_probe_kinds = {F_GOBYTES: "gobytes_alias", F_CBYTES0: "cbytes_empty"}
-for fid, kind in cgo_probe_kinds.items():
-    probe_jobs.append(("probe-" + kind, sgen.gen_cgo(1, "quick", modname="c09probe" + kind.replace("_", ""), kinds=[kind], n_each=6), fid))
+probe_jobs = [("probe-abi", gen.probe_program("abi"), "probe"), ("probe-capture", gen.probe_program("capture"), "probe"),
+              ("probe-cgo", sgen.gen_cgo(1, "quick", modname="c09probecgo", kinds=["gobytes_alias", "cbytes_empty"], n_each=6), "probe")]
 
 # =============================================================== 2. programs of this run
 cabi_jobs = []
@@ -143,21 +144,36 @@ def do_job(j):
 
 
 jobs = probe_jobs + str_jobs + cabi_jobs
-results = core.pmap(do_job, jobs, workers=WORKERS)
+# the first build warms the run's private llgo cache (runtime packages); the others then share it
+results = [do_job(jobs[0])] + core.pmap(do_job, jobs[1:], workers=WORKERS)
 
 evals = 0
 units_by_kind = {}
 nviol = 0
 for (tag, prog, fid), o in results:
     check_reference(tag, prog, o)
+    if o.get("build_timeout"):
+        chk.inconclusive += 1
+        print("inconclusive: llgo build of %s hit the wall-clock watchdog" % tag, flush=True)
+        continue
     fu = failing_units(prog, o)
-    if fid is not None:          # probe
+    if fid is not None:          # probe program: attribute every failing unit to the finding it reproduces
         if fu is None:
             continue
-        if chk.known(fid, ""):
-            continue
-        chk.violation(tag, replay_files(prog), "regression probe of a finding recorded as fixed fails again [%s]:\n%s" % (fid, fu[1]))
-        make_replay_exec(tag)
+        bad, summary = fu
+        fids = []
+        for u in bad:
+            m = prog["meta"].get(u, {})
+            f = PROBE_OF.get(m.get("probe") or m.get("kind"))
+            if f and f not in fids:
+                fids.append(f)
+        if not fids:             # died before/without a unit line: first unit's finding
+            m = prog["meta"][min(prog["meta"])]
+            fids = [PROBE_OF[m.get("probe") or m.get("kind")]]
+        for f in fids:
+            if not chk.known(f, ""):
+                chk.violation(tag + "-" + f, replay_files(prog), "regression probe of a finding recorded as fixed fails again [%s]:\n%s" % (f, summary))
+                make_replay_exec(tag + "-" + f)
         continue
     for u, m in prog["meta"].items():
         units_by_kind[m["kind"]] = units_by_kind.get(m["kind"], 0) + 1
@@ -193,27 +209,10 @@ for (tag, prog, fid), o in results:
         make_replay_exec(tag)
 
 # =============================================================== 3. memcheck on the string programs (-tags nogc)
-SUPP = """{
-   llgo-signal-sigaction-layout
-   Memcheck:Param
-   rt_sigaction(act->sa_mask)
-   ...
-   fun:*signal.Signal*
-}
-{
-   llgo-signal-sigaction-layout2
-   Memcheck:Param
-   rt_sigaction(act->sa_flags)
-   ...
-   fun:*signal.Signal*
-}
-"""
 vg_reports = 0
 vg_runs = 0
+vg_suppressed = 0
 if nviol == 0:
-    supp = os.path.join(w.dir, "c09.supp")
-    with open(supp, "w") as f:
-        f.write(SUPP)
     vg_jobs = [("vg-strn", sgen.gen_native(chk.seed + 7000, "quick", modname="c09vgn")),
                ("vg-strc", sgen.gen_cgo(chk.seed + 7000, "quick", modname="c09vgc", kinds=cgo_kinds))]
 
@@ -224,14 +223,18 @@ if nviol == 0:
         if cerr:
             return j, None, cerr
         exe = os.path.join(d, "p_nogc.bin")
-        rc, so, se = core.llgo_build(w, llgo, d, exe, tags="nogc")
+        rc, so, se = core.llgo_build(w, llgo, d, exe, tags="nogc", timeout=2400)
+        if rc == -999:
+            return j, "timeout", ""
         if rc != 0:
             return j, None, so + se
-        r = core.run_prog(["valgrind", "-q", "--error-exitcode=0", "--num-callers=30", "--suppressions=" + supp,
-                           "--undef-value-errors=no", exe], timeout=900, quiesce=False)
+        r = core.run_prog(["valgrind", "-q", "--error-exitcode=0", "--num-callers=30", "--undef-value-errors=no", exe], timeout=900, quiesce=False)
         return j, r, ""
 
     for (tag, prog), r, err in core.pmap(do_vg, vg_jobs, workers=2):
+        if r == "timeout":
+            chk.inconclusive += 1
+            continue
         if r is None:
             chk.violation(tag, replay_files(prog, {"tags.txt": "nogc\n", "build.log": err[-20000:]}), "%s: -tags nogc build of the string program failed:\n%s" % (tag, err[-1200:]))
             continue
@@ -239,8 +242,24 @@ if nviol == 0:
             chk.inconclusive += 1
             continue
         vg_runs += 1
-        reps = re.split(r"\n(?===\d+== \S)", r.err)
-        inval = [b for b in re.findall(r"(==\d+== (?:Invalid (?:read|write)|Invalid free|Mismatched free|Source and destination overlap)[^\n]*\n(?:==\d+== [^\n]*\n)*)", r.err)]
+        blocks, cur = [], []
+        for ln in r.err.split("\n"):
+            m = re.match(r"==\d+== ?(.*)$", ln)
+            if not m:
+                continue
+            if m.group(1).strip() == "":
+                if cur:
+                    blocks.append("\n".join(cur))
+                cur = []
+            else:
+                cur.append(m.group(1))
+        if cur:
+            blocks.append("\n".join(cur))
+        reports = [b for b in blocks if re.match(r"(Invalid (read|write|free)|Mismatched free|Source and destination overlap|Syscall param|Jump to the invalid address|Process terminating)", b)]
+        # known start-up noise (DESIGN 7-16): clite/signal.Signal hands libc a 24-byte darwin-layout sigaction; suppressed by stack signature only
+        noise = [b for b in reports if "clite/signal.Signal" in b]
+        vg_suppressed += len(noise)
+        inval = [b for b in reports if "clite/signal.Signal" not in b]
         vg_reports += len(inval)
         plain_err = "\n".join(l for l in r.err.split("\n") if not l.startswith("=="))
         st = run.streams_diff(r.out, plain_err.rstrip("\n") + "\n", prog["exp_out"], prog["exp_err"])
@@ -257,6 +276,7 @@ chk.cov["programs"] = len(cabi_jobs) + len(str_jobs)
 chk.cov["units_by_kind"] = units_by_kind
 chk.cov["valgrind_runs"] = vg_runs
 chk.cov["valgrind_invalid_reports"] = vg_reports
+chk.cov["valgrind_suppressed_startup_reports"] = vg_suppressed
 chk.cov["avoided_constructs"] = [a for a in avoid] + [k for f, k in cgo_probe_kinds.items() if chk.is_open(f)] + (["capturing closure as C callback"] if chk.is_open(F_CAPT) else [])
 chk.cov["rule"] = ("every scalar leaf echoed by the receiving side (C callee compiled by gcc -O1 / Go callback compiled by llgo) and every leaf of the returned, "
                    "leaf-wise transformed value must equal the generator's table, which must equal a C->C run of the same calls (gcc only); strings/buffers: byte-for-byte "
